@@ -75,7 +75,7 @@ def union(ctx, report, facts, config, rule="C07.UNION"):
 
 def all_rule(ctx, report, facts, config, rule="C07.ALL"):
     prog = ctx.program(facts)
-    acc = P.acc_fields(facts)
+    acc = P.acc_fields(facts, ctx)
     for name, key in (("fetch_all_reads", "R"), ("fetch_all_writes", "W")):
         b = facts.one(A.SB + "::" + name)
         report.touched(b, config)
